@@ -587,6 +587,14 @@ func c53Judge(r *vkit.Run, c *c53Case, obs *c53Obs) {
 			}
 		}
 		r.Count("requests", int64(len(evs)))
+		for i, e := range evs { // how far the run was from the scripted timing (evidence only)
+			if e.B-e.A > 5e6 {
+				r.Count("calls_longer_than_5ms", 1)
+			}
+			if i < len(c.Keys[ki].Offs) && e.A-int64(c.Keys[ki].Offs[i])*1000 > 5e6 {
+				r.Count("calls_later_than_5ms", 1)
+			}
+		}
 		r.Count("checked_allow", nAllow)
 		r.Count("checked_deny", nDeny)
 		r.Count("ambiguous", nAmb)
@@ -618,7 +626,12 @@ func c53Judge(r *vkit.Run, c *c53Case, obs *c53Obs) {
 					}
 				}
 			}
-			if c.Kind != "keys" {
+			switch {
+			case c.Kind == "storm" && sig == "admit-over-threshold":
+				// counts lost during the concurrent burst only show when a later
+				// request of the same period is admitted: same shape as in the burst
+				sig = "same-key-concurrent:admitted-over-threshold"
+			case c.Kind != "keys":
 				sig = c.Kind + ":" + sig
 			}
 			r.Violation(sig, fmt.Sprintf("%s case %d (sign %s) key %d: %s", c.Kind, c.Idx, c.Sign, c.Keys[ki].Key, v.What),
@@ -665,12 +678,20 @@ func c53JudgeStorm(r *vkit.Run, c *c53Case, obs *c53Obs, p c53Params) ([]c53St, 
 	switch {
 	case admitted > want:
 		bad = true
+		// (no magnitude suffix: a counter that is replaced in the dict takes all of its
+		// counts with it, so the excess is not bounded by the number of workers)
 		r.Violation("same-key-concurrent:admitted-over-threshold",
 			fmt.Sprintf("storm case %d (sign %s): %d goroutines x %d requests on ONE key, all within %s (< checkPeriod %s): %d admitted, threshold %d",
 				c.Idx, c.Sign, c.Workers, c.PerWorker, c53ms(bmax-amin), c53ms(p.P), admitted, p.T), wit())
 	case admitted < want:
 		bad = true
-		r.Violation("same-key-concurrent:denied-below-threshold",
+		// each worker has at most one request in flight between counting and the final
+		// prison lookup, so a larger deficit is a different failure
+		sfx := ":deficit-below-workers"
+		if want-admitted >= c.Workers {
+			sfx = ":deficit-ge-workers"
+		}
+		r.Violation("same-key-concurrent:denied-below-threshold"+sfx,
 			fmt.Sprintf("storm case %d (sign %s): %d requests on one key within one period, only %d admitted, threshold %d", c.Idx, c.Sign, n, admitted, p.T), wit())
 	default:
 		r.Count("storm_admitted_equals_threshold", 1)
